@@ -4,13 +4,23 @@
 // harness. Without the "verif" build tag every hook is an empty function.
 package verifhook
 
-// Hook, when non-nil, is invoked at every yield point with the name of the site.
-// It must be set before any parsing starts and not changed afterwards.
-var Hook func(site string)
+import "sync/atomic"
+
+var hook atomic.Pointer[func(site string)]
+
+// SetHook installs (or, with nil, removes) the function invoked at every yield point.
+// It may be called while library goroutines are running.
+func SetHook(f func(site string)) {
+	if f == nil {
+		hook.Store(nil)
+		return
+	}
+	hook.Store(&f)
+}
 
 // Yield hands control to the simulator (if one is installed).
 func Yield(site string) {
-	if h := Hook; h != nil {
-		h(site)
+	if h := hook.Load(); h != nil {
+		(*h)(site)
 	}
 }
